@@ -563,6 +563,32 @@ void container_case(std::size_t n, u64 seed, int draws)
   if (ends && !reported && !(first && last))
     fail("random::wrapper::uniform_container|end-not-reached|size " + std::string(n == 1 ? "1" : ">=2"),
          std::string(first ? "last" : "first") + " element never drawn in " + str(draws) + " draws");
+  // the wrapper constructed DIRECTLY with explicit index parameters [lo, hi2] inside the container
+  // (a sub-range: hi2 may be below size-1): exactly the sequence std::uniform_int_distribution(lo,
+  // hi2) selects, hence only elements lo..hi2
+  if (!reported && n >= 2)
+  {
+    size_type const lo = static_cast<size_type>((seed >> 7) % n);
+    size_type const hi2 = static_cast<size_type>(lo + (seed >> 11) % (n - lo));
+    UC sub(fcppt::reference<CC>(cref), IParam{typename IParam::min(lo), typename IParam::max(hi2)});
+    typename E::f fg3(fseed<E>(seed ^ 0x5bd1e995U));
+    typename E::s sg3(sengine<E>(seed ^ 0x5bd1e995U));
+    std::uniform_int_distribution<size_type> sd3(lo, hi2);
+    for (int i = 0; i < 200; ++i)
+    {
+      typename UC::result_type r = sub(fg3);
+      size_type const expect = sd3(sg3);
+      if (&r != &cref[expect])
+      {
+        size_type at = n;
+        for (size_type k = 0; k < n; ++k)
+          if (&cref[k] == &r) at = k;
+        fail("random::wrapper::uniform_container|explicit-sub-range-parameters|" + std::string(at < lo || at > hi2 ? "outside-the-interval" : "sequence-differs"),
+             "uniform_container over " + str(n) + " elements constructed with the index interval [" + str(lo) + "," + str(hi2) + "]: draw " + str(i) + " is element " + (at == n ? std::string("<none>") : str(at)) + ", std selects " + str(expect));
+        break;
+      }
+    }
+  }
   // the wrapper is built from a reference to the container, not from a snapshot of its storage:
   // after the container's contents have been replaced by other contents of the SAME size (the
   // storage moves: move assignment, then a reserve for vectors), draws are elements of the
